@@ -174,6 +174,10 @@ func (p *population) checkStream(where string, items []lorawan.Payload, want [][
 
 func (p *population) call(desc string, f func()) {
 	func() {
+		if desc != "noise.Step" { // noise brackets its own calls
+			cases.Begin("history step: "+desc, map[string]interface{}{"previous_call": p.last})
+			defer cases.End()
+		}
 		defer func() { _ = recover() }()
 		f()
 	}()
